@@ -13,6 +13,7 @@ import (
 
 	"github.com/coreruleset/crs-toolchain/v2/context"
 	"github.com/coreruleset/crs-toolchain/v2/util"
+	"github.com/coreruleset/crs-toolchain/v2/utils"
 )
 
 // renumberTestsCommand represents the update command
@@ -94,7 +95,7 @@ func parseFilePath(ruleOrFileName string, ctxt *context.Context) (string, error)
 	// try to find the file and get the actual name from the file system.
 	extension := path.Ext(ruleOrFileName)
 	ruleOrFileName = ruleOrFileName[:len(ruleOrFileName)-len(extension)]
-	candidates, err := filepath.Glob(path.Join(ctxt.RegressionTestsDir(), "*", ruleOrFileName) + ".*")
+	candidates, err := filepath.Glob(path.Join(utils.EscapeGlob(ctxt.RegressionTestsDir()), "*", ruleOrFileName) + ".*")
 	if err != nil {
 		return "", err
 	}
